@@ -253,13 +253,15 @@ PROPS = {
              'literals as routing tags) against the real kernel, coroutines, router and store, with enough background cycles for the stored data to be timed out, routed, dispatched and '
              'fired, before and after crash/restart steps; the model predicts every assertion of the implementation (a predicted panic is a violation). routesend: every shape of '
              'routing tag and stored receiver through the real router, sender and http plugin (a panic is a violation).',
-        assumptions=['ticks are non-decreasing between two steps of one coroutine (a wall clock stepping backwards between the read and the continuation of TimeoutPromises / SchedulePromises '
-                     'would reach their elapsed-time assertions: recorded as observation O3, not claimed as a finding)',
-                     'unique keys and legal promise states in the database (Keys): established for promise ids and lock resources by PromIds / LockUnique over all runs; schedule / task ids '
-                     'and the invocation-task-has-its-promise invariant are hypotheses of the theorem',
-                     'completions answer the submissions (C06.store_completion_is_truthful proves it for store results inside the kernel model)'],
-        trusted_base=['the composition of the per-coroutine theorem with the kernel model into `halted = none for every run` is NOT mechanised: it is covered by sysdiff, whose model side '
-                      'predicts every assertion before the implementation executes the step',
+        assumptions=['hypothesis RunOkV of C13.server_never_asserts: (i) the clock handed to ticks never steps back (a wall clock stepping backwards between the read and the continuation of TimeoutPromises / '
+                     'SchedulePromises would reach their elapsed-time assertions: observation O3, not claimed as a finding); (ii) submitted requests passed front-end validation (ValidReq; tied by frontdiff); '
+                     '(iii) a thread id started by a tick is not in use by a live thread, a pending submission or a queued completion - the model names submissions by (thread id, sequence number) where Go '
+                     'uses closures, so this is a condition on the model\'s naming, not on the server; (iv) router / sender completions are of that subsystem\'s kind. The model driver evaluates the '
+                     'hypothesis at every submit / tick / complete step of every sysdiff script (counts kernel_hyp_ok / kernel_hyp_not_met in the evidence distribution)',
+                     'the database at boot has unique keys (KeysX; the empty database has: keysX_empty)'],
+        trusted_base=['kernel composition IS mechanised (Proofs/Kernel.lean: delivery invariant over Sys.step; Proofs/KeysInv.lean + AllYieldsK.lean: key invariants over every command the coroutines emit; '
+                      'Proofs/Responds.lean: request coroutines always answer). Outside the theorem: Thread.run fuel (64 steps per thread and tick; exhausting it halts the model with "fuel", never observed) '
+                      'and everything the kernel model abstracts (goroutines, channels, real queues: stackrun / routesend exercise those)',
                       'translate/gofacts site inventory (Generated/Sites.lean, pinned): every util.Assert / panic site of the coroutine and kernel packages is listed; the model\'s `.panic` '
                       'leaves were written from that list by hand',
                       'front-end validation is not modelled: frontdiff ties it to ValidReq on the malformed pool only'],
